@@ -290,6 +290,7 @@ PROPS = {
         "corr": [{"fn": S.corr_coset, "quick": {"n_cases": 36}, "thorough": {"n_cases": 300}},
                  {"fn": C.corr_cell_index, "quick": {"n_cases": 15}, "thorough": {"n_cases": 90}}],
         "oracle": [{"name": "first_order_basis", "fn": o_basis_o1, "quick": {"n": 8}, "thorough": {"n": 40}, "search": {"n": 24}},
+                   {"name": "process_and_object_history", "fn": o_process_history, "quick": {"n": 2}, "thorough": {"n": 16}, "search": {"n": 24}},
                    {"name": "basis_spg_explicit_ops", "fn": o_basis,
                     "quick": {"n": 24, "which": ("spg",), "explicit_ops": 1.0, "min_nlp": 2, "max_N": (8, 6, 4),
                               "orders": (2, 2, 3, 2, 3, 4)},
@@ -305,6 +306,7 @@ PROPS = {
         "corr": [{"fn": S.corr_sum_rule, "quick": {"n_cases": 36, "sizes": ((6, 6), (6, 6), (3, 3))},
                   "thorough": {"n_cases": 240, "sizes": ((8, 8), (6, 6), (4, 4))}}],
         "oracle": [{"name": "first_order_basis", "fn": o_basis_o1, "quick": {"n": 8}, "thorough": {"n": 40}, "search": {"n": 24}},
+                   {"name": "process_and_object_history", "fn": o_process_history, "quick": {"n": 2}, "thorough": {"n": 16}, "search": {"n": 24}},
                    {"name": "basis_sum", "fn": o_basis, "quick": {"n": 12, "which": ("sum",)},
                     "thorough": {"n": 48, "which": ("sum",), "max_N": (10, 6, 4)}, "search": {"n": 30, "which": ("sum",)}},
                    {"name": "basis_sum_large_path", "fn": o_basis,
@@ -413,7 +415,7 @@ PROPS = {
         "trusted": [KERNELS["eigh"], KERNELS["float"], "thread count / BLAS reduction order and log_level are not modelled"],
     },
     "C12": {
-        "lean": "SymfcModel.Props.C12", "gen": ["ApiOrders", "ApiDataset", "ApiSolve", "ApiCompute", "Solver", "SolverState", "Purity"],
+        "lean": "SymfcModel.Props.C12", "gen": ["ApiOrders", "ApiDataset", "ApiSolve", "ApiCompute", "ApiAccess", "Solver", "SolverState", "Purity"],
         "corr": [{"fn": corr_api.corr_api, "quick": {"n_hist": 40}, "thorough": {"n_hist": 300, "hist_len": 9}}],
         "oracle": [{"name": "history", "fn": o_history, "quick": {"n": 8}, "thorough": {"n": 40}, "search": {"n": 24}},
                    {"name": "solver_object_reuse", "fn": o_solver_reuse, "quick": {"n": 6}, "thorough": {"n": 36}, "search": {"n": 18}},
